@@ -6,7 +6,7 @@ CONSTANTS
   DtNum = 1
   DtDen = 4
   Spots = {1,2,4}
-  Vars = {1,4,9}
+  Vars = {1,4}
   Spots2 = {1}
   Configs <- Combos1
   EmitMod = 1
